@@ -432,7 +432,25 @@ def extra_clauses(rep, pp):
         sw.case("dense shape", True)
         if a2._key() == a1._key():
             rep.violation("operators whose leaf data differ have different keys", "DenseArray: same buffer, different shape", inputs={"shapes": [[2, 3], [6]]}, detail=a2._key())
+        # the same array content given with another dtype is the same leaf data (arrays are coerced to float)
+        for other in (np.arange(1, 5), np.arange(1, 5, dtype=np.float32), np.array([1, 2, 3, 4], dtype=np.int8)):
+            sw.case(("dense dtype", str(other.dtype)), True)
+            if pp.ad.DenseArray(other)._key() != pp.ad.DenseArray(np.arange(1.0, 5.0))._key():
+                rep.violation("identical trees over the same leaf data have equal keys and hashes", f"DenseArray: same values given as {other.dtype}",
+                              inputs={"dtype": str(other.dtype)}, detail=pp.ad.DenseArray(other)._key())
         x = pp.ad.Variable("u", {"cells": 1}, sd)
+        # a composite that was hashed BEFORE it is shifted in time / iterate: the shifted copy must not inherit the cached key
+        for which in ("previous_timestep", "previous_iteration"):
+            comp = x * x + pp.ad.Scalar(3.0)
+            k0, _h = comp._key(), hash(comp)
+            shifted = getattr(comp, which)()
+            fresh_shifted = getattr(x * x + pp.ad.Scalar(3.0), which)()
+            sw.case(("shift after hash", which), True)
+            if shifted._key() == k0:
+                rep.violation("operators whose leaf data differ have different keys", f"composite hashed before {which}()", inputs={"shift": which}, detail=k0)
+            elif shifted._key() != fresh_shifted._key() or comp._key() != k0:
+                rep.violation("identical trees over the same leaf data have equal keys and hashes", f"composite hashed before {which}()", inputs={"shift": which},
+                              detail=f"{shifted._key()!r} vs {fresh_shifted._key()!r}; original {comp._key()!r} vs {k0!r}")
         s = pp.ad.Scalar(1.0)
         parent = s * x
         _ = s._key(), parent._key(), hash(parent)
